@@ -1,8 +1,8 @@
 #!/bin/sh
-# usage: confirm4.sh Cxx   -- confirm and file the two round-4 seeds a sub-agent left in /tmp/seed4/Cxx/{s7,s8}
+# usage: confirm4.sh Cxx   -- confirm and file the two round-4 seeds a sub-agent left in /tmp/seed5/Cxx/{t9,t10}
 c=$1
-for k in s7 s8; do
-  d=/tmp/seed4/$c/$k
+for k in t9 t10; do
+  d=/tmp/seed5/$c/$k
   [ -f $d/patch.diff ] || { echo "$c-$k: no patch"; continue; }
   extra=$(ls $d | grep -v -e '^patch.diff$' -e '^demo.sh$' | sed "s#^#$d/#")
   sh "$(dirname "$0")/confirm_seed.sh" $c-$k $c $d/patch.diff $d/demo.sh $extra 2>&1 | tail -2
